@@ -36,6 +36,8 @@ def build(nautilus, cfg, variant, tmp):
         kw['pool'] = (T.FakePool(pl, variant.get('scramble', 0)), None)
     if variant.get('pool_real'):
         kw['pool'] = (int(variant['pool_real']), None)      # a real multiprocessing.Pool created by the sampler itself
+    if cfg.get('lik_tilt'):
+        kw['likelihood_kwargs'] = dict(tilt=cfg['lik_tilt'])
     if variant.get('file'):
         kw['filepath'] = os.path.join(tmp, 'c11_%d.hdf5' % os.getpid())
         kw['resume'] = False
@@ -130,10 +132,10 @@ def one_run(job):
 def configs(tier, seed):
     base = dict(family='gauss', n_dim=2, n_live=60, n_batch=20, n_update=20, n_networks=0, blob='float', seed=11 + seed % 1000, n_shell=10, n_eff=300,
                 neural_network_kwargs=dict(hidden_layer_sizes=(12, 6), max_iter=100))
-    cs = [dict(base), dict(base, family='twomode', blob='none', n_batch=12, n_live=50, prior_identity=True, lik_inplace=True),
+    cs = [dict(base, lik_tilt=0.7), dict(base, family='twomode', blob='none', n_batch=12, n_live=50, prior_identity=True, lik_inplace=True),
           dict(base, n_networks=1, n_live=80, family='periodic', periodic=[0], n_dim=3, blob='two', discard_at_end=True),
           # a likelihood plateau (-inf half space) during exploration, and non-nested bounds whose transfer candidates are used up over several batches
-          dict(base, family='halfspace', n_dim=2, blob='float', n_batch=10, n_live=50), dict(base, family='funnel', n_dim=2, blob='vec3', n_batch=10, n_live=60, n_eff=200),
+          dict(base, family='halfspace', n_dim=2, blob='float', n_batch=10, n_live=50, prior_inplace=True), dict(base, family='funnel', n_dim=2, blob='vec3', n_batch=10, n_live=60, n_eff=200),
           # tiny batches: the transfer candidates of a new bound are used up over many batches (and many checkpoint updates)
           dict(base, family='twomode', n_dim=2, blob='two', n_batch=2, n_live=40, n_update=10, n_eff=150, n_shell=5)]
     if tier == 'thorough':
